@@ -74,6 +74,10 @@ def make_dataset(seed, ds, path):
             v = np.where(r.random(n) < 0.5, label * (card - 1), v)
         cols.append(v)
     rows = [['v%d' % cols[c][i] for c in range(k - 1)] + ['c%d' % label[i]] for i in range(n)]
+    # a sparse column: one real value plus empty cells (cardinality 1 in the sketches, yet not constant), informative about the label
+    sparse = np.where((label == 1) & (r.random(n) < 0.8), 'seen', '')
+    for i in range(n):
+        rows[i][0] = str(sparse[i])
     os.makedirs(path, exist_ok=True)
     pipe.write_csv(os.path.join(path, 'data.csv'), header, rows)
     return cfg
